@@ -2,3 +2,4 @@
 from . import spec_midi          # noqa: F401
 from . import c_messages         # noqa: F401
 from . import b_messages         # noqa: F401
+from . import c_state            # noqa: F401
